@@ -18,7 +18,7 @@ HOOKS = {
 
 ENGINES = [
     {'name': 'vf', 'path': 'vf/harness.py',
-     'serves_properties': ['C01', 'C02', 'C05', 'C07', 'C08', 'C09', 'C13', 'C15', 'C16', 'C20'],
+     'serves_properties': ['C01', 'C02', 'C03', 'C05', 'C07', 'C08', 'C09', 'C13', 'C15', 'C16', 'C20'],
      'kind_free_text': ('runtime monitoring driver: 16 worker processes import the real '
                         'openhtf from /repo, run enumerated + seeded cases, monitors '
                         'decide each property from observed events; witnesses are '
@@ -154,5 +154,20 @@ CHECKS = {
                  'config snapshot, return value, and after return no executor, no SIGINT registration, no RecordHandler left, '
                  're-execution works, overlapping execute() refused without disturbing the running test'),
         'note': 'raising callbacks raise Exception subclasses; KeyboardInterrupt paths belong to C04',
+    },
+    'C03': {
+        'level': 'exploration',
+        'technique': 'runtime trace monitoring: per-group predicates over the body event log and recorded setup results; workloads = enumerated behaviour assignments on nesting skeletons, seeded group-rich programs, and sys.monitoring pause-point schedules with one operator abort',
+        'text': ('(a) six nesting skeletons (group in sequence / subtest / branch / group main / group teardown / subtest in '
+                 'main) with every single and (sampled in quick, all in thorough) pair of non-default behaviours over their '
+                 'phases, plus seeded random group-rich programs, run for real (time-outs under the virtual clock); (b) eight '
+                 'group programs with cooperative slow bodies are run once per reached (thread role, function, line, hit) with '
+                 'that thread paused while a controller performs one complete abort (quick: 40 seeded points per program, '
+                 'thorough: every point, hits <= 4); per group instance: entered iff all setup results recorded non-terminal; '
+                 'entered => every teardown phase executed exactly once, after main stopped, before any following node and '
+                 'before plug tearDown, not killed by a single abort, terminal teardown results propagate; not entered / not '
+                 'reached => no main or teardown body ran'),
+        'note': ('preemption bound 1 over reached lines; groups in a teardown sequence under an already failed subtest are '
+                 'don\'t-care; trusts vf/grouporacle.py'),
     },
 }
